@@ -4257,7 +4257,12 @@ impl Policy {
     pub fn to_cedar(&self) -> Option<String> {
         match &self.lossless {
             LosslessPolicy::Empty | LosslessPolicy::Est(_) | LosslessPolicy::Pst(_) => {
-                Some(self.ast.to_string())
+                if self.ast.is_static() {
+                    Some(self.ast.to_string())
+                } else {
+                    // the `Display` of a linked policy is not Cedar syntax
+                    None
+                }
             }
             LosslessPolicy::Text { text, slots } => {
                 if slots.is_empty() {
